@@ -11,8 +11,11 @@ This file holds the two NFS-level parts of the property:
 
 * `range_conversion…` — `offsetLengthToStartEnd` (`opened_files_pool.go`) is the
   RFC 7530 §16.10.4 mapping from (offset, length) to the half-open table range,
-  `byteRangeLockToLock4Denied` inverts it; and the one corner where it is not:
-  offset `2^64-1` with the all-ones length (a recorded KNOWN finding).
+  `byteRangeLockToLock4Denied` inverts it; every accepted request yields a
+  non-empty range.  Before the fix 3d4b513 that was false for offset `2^64-1` with
+  the all-ones length (finding "LOCK at offset 2^64-1 with length to-EOF yields an
+  empty range", now fixed); the `legacy…` theorems keep the counterexample for the
+  old conversion.
 * `owner_identity…` — one lock-owner object per (client record, owner bytes) in
   `Model/NfsState.lean` (see that section below).
 
@@ -25,101 +28,129 @@ open BbRe.LockRange BbRe.BRL BbRe.Lemmas.NfsLockRange
 
 /-! ## `range_conversion` -/
 
-/-- The conversion rejects (NFS4ERR_INVAL) exactly length 0 and, for a length that
-is not the all-ones "to end of file" marker, a range whose end exceeds `2^64-1`. -/
+/-- The conversion rejects with NFS4ERR_INVAL exactly length 0 and, for a length that is not the
+all-ones "to end of file" marker, a range whose end exceeds `2^64-1`; with NFS4ERR_BAD_RANGE
+exactly offset `2^64-1` with the all-ones length; and with no other status. -/
 theorem range_conversion_rejects (o l : Nat) (ho : o ≤ maxU64) (hl : l ≤ maxU64) :
-    offsetLengthToStartEnd o l = none ↔ (l = 0 ∨ (l ≠ maxU64 ∧ o + l > maxU64)) :=
-  conv_none_iff o l ho hl
+    (offsetLengthToStartEnd o l = .error stInval ↔ (l = 0 ∨ (l ≠ maxU64 ∧ o + l > maxU64))) ∧
+    (offsetLengthToStartEnd o l = .error stBadRange ↔ (o = maxU64 ∧ l = maxU64)) ∧
+    (∀ st, offsetLengthToStartEnd o l = .error st → st = stInval ∨ st = stBadRange) :=
+  ⟨conv_inval_iff o l ho hl, conv_badRange_iff o l, fun st h => conv_error o l st h⟩
 
-example : offsetLengthToStartEnd 7 0 = none ∧ offsetLengthToStartEnd (maxU64 - 1) 2 = none ∧
-    offsetLengthToStartEnd 7 3 ≠ none ∧ offsetLengthToStartEnd 7 maxU64 ≠ none := by decide
+example : offsetLengthToStartEnd 7 0 = .error 22 ∧ offsetLengthToStartEnd (maxU64 - 1) 2 = .error 22 ∧
+    offsetLengthToStartEnd maxU64 maxU64 = .error 10042 ∧ offsetLengthToStartEnd maxU64 1 = .error 22 ∧
+    offsetLengthToStartEnd 7 3 = .ok (7, 10) ∧ offsetLengthToStartEnd 7 maxU64 = .ok (7, maxU64) := by decide
 
 /-- An accepted request `(o, l)` is converted to the range whose bytes are
 `o, o+1, …, o+l-1`, or `o, o+1, …` up to the last representable byte `2^64-2` when
 `l` is all ones (RFC 7530 §16.10.4: "a length of all ones means lock to end of
-file").  The table only ever sees `start ≤ end ≤ 2^64-1`. -/
+file").  The table only ever sees `start < end ≤ 2^64-1`. -/
 theorem range_conversion_bytes (o l s e : Nat) (ho : o ≤ maxU64) (hl : l ≤ maxU64)
-    (h : offsetLengthToStartEnd o l = some (s, e)) :
-    s = o ∧ s ≤ e ∧ e ≤ maxU64 ∧
+    (h : offsetLengthToStartEnd o l = .ok (s, e)) :
+    s = o ∧ s < e ∧ e ≤ maxU64 ∧
     ∀ b, (s ≤ b ∧ b < e) ↔ (o ≤ b ∧ b < maxU64 ∧ (l = maxU64 ∨ b < o + l)) := by
   have h1 := conv_some o l s e ho hl h
   exact ⟨h1.1, h1.2.2.1, h1.2.1, conv_bytes o l s e ho hl h⟩
 
-example : offsetLengthToStartEnd 5 10 = some (5, 15) ∧ offsetLengthToStartEnd 5 maxU64 = some (5, maxU64) ∧
-    offsetLengthToStartEnd (maxU64 - 1) 1 = some (maxU64 - 1, maxU64) := by decide
+example : offsetLengthToStartEnd 5 10 = .ok (5, 15) ∧ offsetLengthToStartEnd 5 maxU64 = .ok (5, maxU64) ∧
+    offsetLengthToStartEnd (maxU64 - 1) 1 = .ok (maxU64 - 1, maxU64) ∧
+    offsetLengthToStartEnd (maxU64 - 1) maxU64 = .ok (maxU64 - 1, maxU64) := by decide
 
-/-- **The exact precondition.**  An accepted request yields a non-empty range —
-which is what `ByteRangeLockSet` needs (`C20.wf_preserved`, `C20.test_exact`,
-`C20.set_pointwise` all assume `start < stop`) — unless it is offset `2^64-1`
-with the all-ones length. -/
-theorem range_conversion_nonempty_iff (o l s e : Nat) (ho : o ≤ maxU64) (hl : l ≤ maxU64)
-    (h : offsetLengthToStartEnd o l = some (s, e)) :
-    s < e ↔ ¬ (o = maxU64 ∧ l = maxU64) :=
-  conv_nonempty_iff o l s e ho hl h
+/-- **Every accepted request yields a non-empty range** — which is what
+`ByteRangeLockSet` needs (`C20.wf_preserved`, `C20.test_exact`, `C20.set_pointwise`
+all assume `start < stop`).  Unconditional since 3d4b513; compare
+`legacy_range_conversion_nonempty_iff`. -/
+theorem range_conversion_nonempty (o l s e : Nat) (ho : o ≤ maxU64) (hl : l ≤ maxU64)
+    (h : offsetLengthToStartEnd o l = .ok (s, e)) : s < e :=
+  conv_nonempty o l s e ho hl h
 
-/-- `range_conversion`, summary form: every request other than (`2^64-1`, all
-ones) is either rejected — exactly when its length is 0 or it overflows — or
-converted to a valid table request (`Spec.ByteLocks.Req.Valid`) covering exactly
-its bytes. -/
-theorem range_conversion (o l : Nat) (ho : o ≤ maxU64) (hl : l ≤ maxU64)
-    (hcorner : ¬ (o = maxU64 ∧ l = maxU64)) :
-    (offsetLengthToStartEnd o l = none ∧ (l = 0 ∨ (l ≠ maxU64 ∧ o + l > maxU64))) ∨
-    (∃ e, offsetLengthToStartEnd o l = some (o, e) ∧ o < e ∧ e ≤ maxU64 ∧
-      ¬ (l = 0 ∨ (l ≠ maxU64 ∧ o + l > maxU64)) ∧
+/-- `range_conversion`, summary form: every request is either rejected — with
+NFS4ERR_INVAL exactly when its length is 0 or it overflows, with NFS4ERR_BAD_RANGE
+exactly when it is the byte `2^64-1` alone — or converted to a valid table request
+(`Spec.ByteLocks.Req.Valid`: non-empty) covering exactly its bytes. -/
+theorem range_conversion (o l : Nat) (ho : o ≤ maxU64) (hl : l ≤ maxU64) :
+    (offsetLengthToStartEnd o l = .error stInval ∧ (l = 0 ∨ (l ≠ maxU64 ∧ o + l > maxU64))) ∨
+    (offsetLengthToStartEnd o l = .error stBadRange ∧ o = maxU64 ∧ l = maxU64) ∨
+    (∃ e, offsetLengthToStartEnd o l = .ok (o, e) ∧ o < e ∧ e ≤ maxU64 ∧
+      ¬ (l = 0 ∨ (l ≠ maxU64 ∧ o + l > maxU64)) ∧ ¬ (o = maxU64 ∧ l = maxU64) ∧
       ∀ b, (o ≤ b ∧ b < e) ↔ (o ≤ b ∧ b < maxU64 ∧ (l = maxU64 ∨ b < o + l))) := by
   cases hc : offsetLengthToStartEnd o l with
-  | none => exact Or.inl ⟨rfl, (conv_none_iff o l ho hl).1 hc⟩
-  | some p =>
+  | error st =>
+    rcases conv_error o l st hc with h | h
+    · subst h; exact Or.inl ⟨rfl, (conv_inval_iff o l ho hl).1 hc⟩
+    · subst h; exact Or.inr (Or.inl ⟨rfl, (conv_badRange_iff o l).1 hc⟩)
+  | ok p =>
     obtain ⟨s, e⟩ := p
     have h1 := conv_some o l s e ho hl hc
     have hs : s = o := h1.1
     subst hs
-    refine Or.inr ⟨e, rfl, (conv_nonempty_iff s l s e ho hl hc).2 hcorner, h1.2.1, ?_,
-      conv_bytes s l s e ho hl hc⟩
-    intro hrej
-    have := (conv_none_iff s l ho hl).2 hrej
-    rw [hc] at this
-    exact absurd this (by simp)
+    refine Or.inr (Or.inr ⟨e, rfl, h1.2.2.1, h1.2.1, ?_, ?_, conv_bytes s l s e ho hl hc⟩)
+    · intro hrej
+      have := (conv_inval_iff s l ho hl).2 hrej
+      rw [hc] at this
+      exact absurd this (by simp)
+    · intro hrej
+      have := (conv_badRange_iff s l).2 hrej
+      rw [hc] at this
+      exact absurd this (by simp)
 
 /-- `byteRangeLockToLock4Denied` inverts the conversion on every (non-empty)
 range a table can hold: the reported (offset, length) converts back to the
 conflicting entry's range. -/
 theorem denied_inverts_conversion (s e : Nat) (hse : s < e) (he : e ≤ maxU64) :
-    offsetLengthToStartEnd (toDenied s e).1 (toDenied s e).2 = some (s, e) :=
+    offsetLengthToStartEnd (toDenied s e).1 (toDenied s e).2 = .ok (s, e) :=
   denied_inverts s e hse he
 
 /-- … and conversely a granted request is reported with its own offset, and with
 its own length unless the range ends exactly at `2^64-1`, in which case the
 all-ones length is reported (the same set of representable bytes). -/
 theorem denied_of_conversion (o l s e : Nat) (ho : o ≤ maxU64) (hl : l ≤ maxU64)
-    (h : offsetLengthToStartEnd o l = some (s, e)) (hne : s < e) :
+    (h : offsetLengthToStartEnd o l = .ok (s, e)) :
     (toDenied s e).1 = o ∧ ((toDenied s e).2 = l ∨ ((toDenied s e).2 = maxU64 ∧ o + l = maxU64)) :=
-  denied_of_conv o l s e ho hl h hne
+  denied_of_conv o l s e ho hl h
 
 example : toDenied 5 15 = (5, 10) ∧ toDenied 5 maxU64 = (5, maxU64) ∧
     toDenied (maxU64 - 1) maxU64 = (maxU64 - 1, maxU64) := by decide
 
-/-! ### The corner (KNOWN finding "LOCK at offset 2^64-1 with length to-EOF yields an empty range") -/
+/-! ### The conversion before 3d4b513 (fixed finding "LOCK at offset 2^64-1 with length to-EOF yields an empty range")
 
-/-- The request excluded above is accepted and converted to the EMPTY range
-`[2^64-1, 2^64-1)`: the half-open `uint64` representation cannot express byte
-`2^64-1`. -/
-theorem empty_corner : offsetLengthToStartEnd maxU64 maxU64 = some (maxU64, maxU64) :=
-  conv_empty_corner
+`legacyOffsetLengthToStartEnd` is the old function; it differs from the current one only in the
+corner (`legacy_range_conversion_agrees`).  The theorems below are the counterexample that made
+`range_conversion_nonempty` need a precondition; the seeded change
+`seeded/revert-fix-C20-range-corner` brings the behaviour back and must be reported. -/
+
+/-- The old and the new conversion agree except for (`2^64-1`, all ones). -/
+theorem legacy_range_conversion_agrees (o l : Nat) (hc : ¬ (o = maxU64 ∧ l = maxU64)) :
+    offsetLengthToStartEnd o l =
+      match legacyOffsetLengthToStartEnd o l with
+      | none => .error stInval
+      | some p => .ok p :=
+  conv_eq_legacy o l hc
+
+/-- The old exact precondition: an accepted request yielded a non-empty range unless it was offset
+`2^64-1` with the all-ones length. -/
+theorem legacy_range_conversion_nonempty_iff (o l s e : Nat) (ho : o ≤ maxU64) (hl : l ≤ maxU64)
+    (h : legacyOffsetLengthToStartEnd o l = some (s, e)) :
+    s < e ↔ ¬ (o = maxU64 ∧ l = maxU64) :=
+  legacy_conv_nonempty_iff o l s e ho hl h
+
+/-- That request was accepted and converted to the EMPTY range `[2^64-1, 2^64-1)`: the half-open
+`uint64` representation cannot express byte `2^64-1`. -/
+theorem legacy_empty_corner : legacyOffsetLengthToStartEnd maxU64 maxU64 = some (maxU64, maxU64) := by
+  decide
 
 /-- For that range `Test` never reports a conflict, whatever the table holds … -/
-theorem empty_corner_never_conflicts (ls : List Lock) (hM : ∀ x ∈ ls, x.stop ≤ maxU64)
+theorem legacy_empty_corner_never_conflicts (ls : List Lock) (hM : ∀ x ∈ ls, x.stop ≤ maxU64)
     (o : Nat) (ty : Ty) : test ls ⟨maxU64, maxU64, o, ty⟩ = none :=
   test_empty_corner ls hM o ty
 
-/-- … so two different owners are BOTH granted an exclusive lock "from byte
+/-- … so two different owners were BOTH granted an exclusive lock "from byte
 `2^64-1` to the end of the file": the caller model (`Test`, then `Set`) ends with
 two exclusive entries of different owners, each `Set` returns `+1` (a byte-less
 entry bumps `lockCount`), and the table no longer satisfies its representation
-invariant.  `range_conversion` therefore cannot drop its precondition.
-(Reproduced through both real programs by the probe of harness `nfsstate`.) -/
-theorem empty_corner_two_exclusive_owners :
-    offsetLengthToStartEnd maxU64 maxU64 = some (maxU64, maxU64) ∧
+invariant. -/
+theorem legacy_empty_corner_two_exclusive_owners :
+    legacyOffsetLengthToStartEnd maxU64 maxU64 = some (maxU64, maxU64) ∧
     Spec.ByteLocks.run [] [⟨maxU64, maxU64, 1, .excl⟩, ⟨maxU64, maxU64, 2, .excl⟩] =
       [⟨maxU64, maxU64, 2, .excl⟩, ⟨maxU64, maxU64, 1, .excl⟩] ∧
     (set [] ⟨maxU64, maxU64, 1, .excl⟩).2 = 1 ∧
@@ -129,9 +160,9 @@ theorem empty_corner_two_exclusive_owners :
    corner_two_exclusive_owners.2.2.2.2.1, corner_two_exclusive_owners.2.2.2.2.2.1,
    corner_two_exclusive_owners.2.2.2.2.2.2.2⟩
 
-/-- `UnlockAll` (`[0, 2^64-1)`) does remove the byte-less entry: CLOSE and lease
-expiry find `lockCount` consistent with the table (no panic from this corner). -/
-theorem empty_corner_unlock_all (o : Nat) (ty : Ty) (hty : ty ≠ .unlocked) :
+/-- `UnlockAll` (`[0, 2^64-1)`) did remove the byte-less entry: CLOSE and lease
+expiry found `lockCount` consistent with the table (no panic from this corner). -/
+theorem legacy_empty_corner_unlock_all (o : Nat) (ty : Ty) (hty : ty ≠ .unlocked) :
     setList [⟨maxU64, maxU64, o, ty⟩] ⟨unlockAllRange.1, unlockAllRange.2, o, .unlocked⟩ = [] :=
   corner_unlock_all_removes o ty hty
 
@@ -195,8 +226,7 @@ leaves no entry of its lock-owner object in the table of the opened file and doe
 entries of other owners.  Missing for the full statement: `lockCount = 0 → the owner has no entry`,
 which holds only when a lock-owner has one lock-owner file per opened file (the known finding
 "lock-owner shared by two open-owners" is a counterexample) and needs `C20.lock_count` lifted to the
-state machine.  The table is assumed to hold no byte-less entry (no LOCK(2^64-1, all-ones), the
-other known finding). -/
+state machine.  The table holds no byte-less entry (`range_conversion_nonempty`; hypothesis `hv`). -/
 theorem owner_identity_unlock_all_partial (s : State) (sid lsid : Nat) (f : OFile) (l : LOFile) (e : PoolEnt)
     (hp : s.panic = none)
     (hf : s.getFile sid = some f) (hl : f.lofs.find? (fun l => l.sid == lsid) = some l)
